@@ -195,7 +195,8 @@ class MPRNLRI(Attribute, Family):
         # - 16-byte IPv6 nexthops are valid (could be global or link-local)
         # - With LLNH negotiated, 16-byte link-local (fe80::/10) is explicitly allowed
         # - Semantic interpretation of 16-byte NH depends on LLNH negotiation
-        if negotiated.nexthop:
+        # RFC 8950: only for the families the extended next hop was negotiated for
+        if any((nh_entry[0], nh_entry[1]) == (afi, safi) for nh_entry in negotiated.nexthop):
             if len_nh in (16, 32, 24):
                 nh_afi = AFI.ipv6
             elif len_nh in (4, 12):
